@@ -516,6 +516,12 @@ def case_ip6mask (c, rep):
   rep.count("ip6mask")
 
 
+JUNK = [("newline", "\n"), ("cr", "\r"), ("tab", "\t"), ("space", " "),
+        ("nul", "\0"), ("vtab", "\x0b"), ("nbsp", "\xa0"),
+        ("arabic_digit", "\u0661"), ("fullwidth_digit", "\uff11"),
+        ("crlf", "\r\n")]
+
+
 def ip6_bad_mutations (rng):
   """(class, text) of malformed IPv6 text; each is rejected by the reference."""
   out = []
@@ -548,6 +554,20 @@ def ip6_bad_mutations (rng):
   out.append(("prefix_too_long", "::/129"))
   out.append(("prefix_negative", "::/-1"))
   out.append(("host_bits_set", "::1/64"))
+  # a well-formed address with one stray character: at the end, at the
+  # start, at the end of a group, inside a group (white space, controls,
+  # digits that are not ASCII digits)
+  good = ":".join(g)
+  good2 = g[0] + "::" + g[1]
+  for name, ch in JUNK:
+    for base in (good, good2):
+      p = base.index(":")
+      out.append(("junk_%s_at_end" % name, base + ch))
+      out.append(("junk_%s_at_start" % name, ch + base))
+      out.append(("junk_%s_after_group" % name, base[:p] + ch + base[p:]))
+      out.append(("junk_%s_before_group" % name, base[:p + 1] + ch + base[p + 1:]))
+    # (stray white space around the prefix *length* is not judged: POX reads
+    #  it with int(), which ignores it, and nothing is mis-parsed)
   out = [(cls, t) for cls, t in out]
   ok = []
   for cls, t in out:
@@ -871,6 +891,18 @@ def gen (kind, rng, scale):
     for t in IP4_BAD:
       cls = "".join(ch if not ch.isdigit() else "N" for ch in t)
       yield dict(t="ip4bad", text=t, cls=cls)
+    for name, ch in JUNK:
+      # (not judged: text that libc's inet_aton accepts, i.e. white space
+      #  after the address, and white space around the prefix length)
+      for t in (ch + "10.1.2.3", "10.1" + ch + ".2.3",
+                "10.1." + ch + "2.3", "10.1.2.0/2" + ch + "4",
+                "1" + ch + "0.1.2.3"):
+        try:
+          ipaddress.IPv4Network(t, strict=False) if "/" in t else ipaddress.IPv4Address(t)
+          continue
+        except Exception:
+          pass
+        yield dict(t="ip4bad", text=t, cls="junk_" + name)
     for _ in range(300 * scale):
       v = rng.getrandbits(32)
       b = rng.randrange(1, 32)
